@@ -53,6 +53,29 @@ class Minimal:
         return self._p
 
 
+class FaultOnce(io.BytesIO):
+    """BytesIO whose k-th read() after arm(k) raises OSError once (a transient I/O error, an interrupted system call, a timeout that the
+    caller catches) and which works normally before and afterwards.  A call that failed for such a reason may be repeated, and the
+    repetition must answer as if the failure had not happened."""
+    _countdown = None
+    faults = 0
+
+    def arm(self, k):
+        self._countdown = k
+
+    def disarm(self):
+        self._countdown = None
+
+    def read(self, n=-1):
+        if self._countdown is not None:
+            self._countdown -= 1
+            if self._countdown <= 0:
+                self._countdown = None
+                self.faults += 1
+                raise OSError(5, 'injected transient read error')
+        return super().read(n)
+
+
 class _NoneSeekMmap:
     """mmap whose seek() returns None on every Python version (the behaviour of Python <= 3.12), everything else passed through"""
     def __init__(self, m):
